@@ -9,8 +9,10 @@ import (
 	"crypto/cipher"
 	"encoding/base64"
 	"fmt"
+	"runtime"
 	"strconv"
 	"strings"
+	"sync"
 	"time"
 
 	"go.minekube.com/gate/pkg/edition/bedrock/geyser/floodgate"
@@ -595,6 +597,132 @@ func (c *ctx) structural(hostname, orig string, other *ctx, d fgData, host strin
 	}
 }
 
+// ---------- concurrent probe ----------
+
+// splitBlob is the harness's own framing reader (independent of gate's Decrypt): header, first '!', Base64.
+func splitBlob(enc []byte) (iv, ct []byte, ok bool) {
+	if len(enc) < len(fgHeader) || string(enc[:len(fgHeader)]) != fgHeader {
+		return nil, nil, false
+	}
+	body := enc[len(fgHeader):]
+	i := bytes.IndexByte(body, '!')
+	if i < 0 {
+		return nil, nil, false
+	}
+	iv, e1 := base64.StdEncoding.DecodeString(string(body[:i]))
+	ct, e2 := base64.StdEncoding.DecodeString(string(body[i+1:]))
+	return iv, ct, e1 == nil && e2 == nil && len(iv) == 12
+}
+
+// concurrentProbe: G goroutines share ONE *Floodgate (as the proxy shares it between Bedrock connections); each
+// Encrypts its own distinct plaintexts, keeps the returned slice without copying, yields, and opens it with the
+// harness's own AES-GCM.  A blob that does not open to ITS plaintext, or two calls that return the same nonce,
+// cannot occur on correct code whatever the schedule; each such event becomes a case line with a viol verdict.
+func concurrentProbe(run *hx.Run, c *ctx) {
+	const G = 8
+	R := run.Scale(1500, 15000)
+	mkPlain := func(g, j int) []byte {
+		p := []byte(fmt.Sprintf("probe|g%02d|j%06d|", g, j))
+		return append(p, bytes.Repeat([]byte{byte('a' + g)}, g*7+j%13)...)
+	}
+	// one sequential sample: the relation machinery on the real code, deterministic verdict
+	if enc, err := c.fg.Encrypt(mkPlain(0, 0)); err == nil {
+		run.Case("conc-sample", fmt.Sprintf("cenc %s %s", hx.Hex(mkPlain(0, 0)), oracleFor(c.key, string(enc))), "ok "+hx.Hex(enc))
+	} else {
+		run.Case("conc-sample", fmt.Sprintf("cenc %s _", hx.Hex(mkPlain(0, 0))), "err")
+	}
+	type failure struct {
+		plain []byte
+		out   string // "ok <hex>", "err", "panic"
+		raw   string
+	}
+	type seen struct {
+		iv  string
+		enc string
+	}
+	var mu sync.Mutex
+	var fails []failure
+	nfail, npanic := 0, 0
+	perG := make([][]seen, G)
+	gcm := newGCM(c.key, 12)
+	var wg sync.WaitGroup
+	start := make(chan struct{})
+	for g := 0; g < G; g++ {
+		wg.Add(1)
+		go func(g int) {
+			defer wg.Done()
+			<-start
+			for j := 0; j < R; j++ {
+				plain := mkPlain(g, j)
+				var enc []byte
+				var err error
+				panicked := false
+				func() {
+					defer func() {
+						if r := recover(); r != nil {
+							panicked = true
+						}
+					}()
+					enc, err = c.fg.Encrypt(plain)
+				}()
+				runtime.Gosched()
+				good := false
+				out := ""
+				switch {
+				case panicked:
+					out = "panic"
+				case err != nil:
+					out = "err"
+				default:
+					iv, ct, ok := splitBlob(enc)
+					if ok {
+						perG[g] = append(perG[g], seen{string(iv), string(enc)})
+						pt, e := gcm.Open(nil, iv, ct, nil)
+						good = e == nil && bytes.Equal(pt, plain)
+					}
+					out = "ok " + hx.Hex(enc)
+				}
+				if !good {
+					mu.Lock()
+					nfail++
+					if panicked {
+						npanic++
+					}
+					if len(fails) < 6 {
+						fails = append(fails, failure{plain, out, string(enc)})
+					}
+					mu.Unlock()
+				}
+			}
+		}(g)
+	}
+	close(start)
+	wg.Wait()
+	// nonces of all produced blobs must be pairwise distinct
+	first := map[string]string{}
+	ndup := 0
+	var dups [][2]string
+	for g := 0; g < G; g++ {
+		for _, s := range perG[g] {
+			if prev, ok := first[s.iv]; ok {
+				ndup++
+				if len(dups) < 3 {
+					dups = append(dups, [2]string{prev, s.enc})
+				}
+			} else {
+				first[s.iv] = s.enc
+			}
+		}
+	}
+	for _, f := range fails {
+		run.Case("conc-fail", fmt.Sprintf("cenc %s %s", hx.Hex(f.plain), oracleFor(c.key, f.raw)), f.out)
+	}
+	for _, d := range dups {
+		run.Case("conc-dup", fmt.Sprintf("cnonce %s %s", hx.HexS(d[0]), hx.HexS(d[1])), "same-nonce")
+	}
+	run.Case("conc", fmt.Sprintf("csum %d %d %d", len(c.key), G, R), fmt.Sprintf("total=%d fail=%d dup=%d panic=%d", G*R, nfail-npanic, ndup, npanic))
+}
+
 func main() {
 	run := hx.Start()
 	r := run.Rng
@@ -801,6 +929,10 @@ func main() {
 			class = "wr-odd-host"
 		}
 		c.caseWr(class, host, d)
+	}
+	// ---- concurrent use of one shared Floodgate instance ----
+	for _, c := range cs[:3] {
+		concurrentProbe(run, c)
 	}
 	run.Finish()
 }
